@@ -92,6 +92,168 @@ def truth(pt, c):
     return OPS[op](getattr(pt, a), eval(v))
 
 
+def fresh_point(gdata, p):
+    """a new DataPoint with the items of p (built without DataPoint.copy, which is itself under test)"""
+    q = gdata.DataPoint()
+    q.clear()
+    q.update(dict(p))
+    return q
+
+
+def temporaries_stream(rep, rng, g, dsets, rounds):
+    """Oracle stream (plain list operations, no model): the property on SHORT-LIVED datasets.
+
+    Analysis scripts rarely keep the intermediate datasets: they write select(ds[:8], crit), (a[:4] + b[-4:])[::2],
+    select(select(ds, c1), c2) with the inner dataset dropped as soon as the call returns.  One round fixes an operation
+    (criteria + logic, a slice, a concatenation shape) and applies it to temporaries built the same way from a sequence of
+    DIFFERENT source datasets, each temporary created inline and dropped before the next one is made (CPython then hands
+    out the same addresses again); every result is compared with the same operation on plain lists of the source points:
+    identical objects in the same order, a DataSet, the attributes of the source, the source untouched.
+    A last kind keeps one private dataset alive and re-assigns a point attribute between two identical selections: the
+    second selection is the list filter with the CURRENT attribute values."""
+    from gepard import data as gdata
+    big = [d for d in dsets if len(d) >= 6]
+    nattrs = {id(d): set(numeric_attrs(d)) for d in big}          # the bundled datasets stay alive: id() is a sound key here
+    common_attrs = [a for a in ('val', 'err', 'Q2', 'xB', 't', 'W', 'phi') if sum(1 for d in big if a in nattrs[id(d)]) >= 12]
+
+    def same(got, want):
+        return len(got) == len(want) and all(a is b for a, b in zip(got, want))
+
+    def describe(got, ref):
+        foreign = sum(1 for p in got if not any(p is r for r in ref))
+        return '%d points of which %d are not in the dataset given' % (len(got), foreign)
+
+    def lfilter(points, crit, logic):
+        comb = all if logic == 'AND' else any
+        return [p for p in points if comb([truth(p, c) for c in crit])]
+
+    def attrs_of(d):
+        return attrs_tokens(d.__dict__)
+
+    def report(kind, what, payload):
+        rep.violation('temporary/%s' % kind, what, dict(op='temporary/' + kind, input=payload))
+
+    for r in range(rounds):
+        kind = ('select-slice', 'select-cat', 'slice-slice', 'cat-slice', 'select-select', 'copy-of-slice', 'select-mutated')[r % 7]
+        rep.hist('temporary.kind', kind)
+        attrs = rng.sample(common_attrs, min(len(common_attrs), rng.randint(1, 2))) if common_attrs else []
+        pool = [d for d in big if all(a in nattrs[id(d)] for a in attrs)]
+        if len(pool) < 4:
+            continue
+        srcs = rng.sample(pool, min(len(pool), rng.randint(6, 10)))
+        k = rng.randint(3, min(len(d) for d in srcs))
+        k = min(k, 12)
+        # one fixed operation for the whole round
+        crit = []
+        for a in attrs:
+            v = getattr(rng.choice(rng.choice(srcs)), a)
+            crit.append((a, rng.choice(['>', '<', '>=', '<=']), repr(v if rng.random() < 0.7 else 0.0)))
+        strs = ['%s %s %s' % c for c in crit]
+        logic = rng.choice(['AND', 'OR'])
+        sl = slice(rng.choice([None, 0, 1, -k]), rng.choice([None, k, -1, k - 1]), rng.choice([None, 1, 2, -1]))
+        if kind == 'select-mutated' and not crit:
+            continue
+        h = k // 2
+        for j, ds in enumerate(srcs):
+            ds2 = srcs[(j + 1) % len(srcs)]
+            base, base2 = list(ds), list(ds2)                       # plain lists of the source points
+            before = ([id(p) for p in ds], attrs_of(ds))
+            payload = dict(kind=kind, dataset=getattr(ds, 'id', None), second=getattr(ds2, 'id', None), k=k, criteria=strs, logic=logic,
+                           slice=[sl.start, sl.stop, sl.step], position_in_round=j)
+            rep.case('temporary', (kind, payload['dataset'], payload['second'], k, tuple(strs), logic, str(sl)))
+            # ---- harness side: the operation on plain lists (ref = points of the temporary, want = points of the result) ----
+            want_attrs = before[1]
+            own = None
+            if kind == 'select-slice':
+                ref = base[:k]
+                want = lfilter(ref, crit, logic)
+                real = lambda: g.select(ds[:k], strs, logic)
+            elif kind == 'select-cat':
+                ref = base[:h] + base2[-(k - h):]
+                want = lfilter(ref, crit, logic)
+                want_attrs = None                                   # attributes of a concatenation: checked by the add stream
+                real = lambda: g.select(ds[:h] + ds2[-(k - h):], strs, logic)
+            elif kind == 'slice-slice':
+                ref = base[-k:]
+                want = ref[sl]
+                real = lambda: ds[-k:][sl]
+            elif kind == 'cat-slice':
+                ref = base[:h] + base2[:k - h]
+                want = ref[sl]
+                want_attrs = None
+                real = lambda: (ds[:h] + ds2[:k - h])[sl]
+            elif kind == 'select-select':
+                ref = base[:k]
+                want = lfilter(lfilter(ref, crit[:1], 'AND'), crit, logic)
+                real = lambda: g.select(g.select(ds[:k], strs[:1], 'AND'), strs, logic)
+            elif kind == 'copy-of-slice':
+                src_pt = base[k - 1]
+                saved = dict(src_pt)
+                try:
+                    c = ds[:k][k - 1].copy()
+                    bad = 'is the point itself' if c is src_pt else ('has other items than the point' if dict(c) != saved else None)
+                    if bad is None:
+                        c.val = 12345.678
+                        c['verif_tmp'] = 1
+                        if dict(src_pt) != saved:
+                            bad = 'is not independent of it: assigning val and a new key on the copy changed the original point'
+                except Exception as e:
+                    bad = 'raised %s' % type(e).__name__
+                finally:
+                    if dict(src_pt) != saved:
+                        src_pt.clear()
+                        src_pt.update(saved)
+                if bad:
+                    report('copy', 'the copy of point %d of the temporary slice [:%d] of dataset %s %s' % (k - 1, k, payload['dataset'], bad), payload)
+                continue
+            else:  # select-mutated: one private dataset kept alive, a point attribute re-assigned between identical calls
+                a0 = crit[0][0]
+                own = gdata.DataSet([fresh_point(gdata, p) for p in base[:k]])
+                own.__dict__ = dict(ds.__dict__)
+                want_attrs = attrs_of(own)
+                want1 = lfilter(list(own), crit, logic)
+                try:
+                    first = g.select(own, strs, logic)
+                    if not same(first, want1):
+                        report('select', 'select on a private dataset (copies of the first %d points of dataset %s), criteria %s (%s): got %s, '
+                               'the list filter gives %d points' % (k, payload['dataset'], strs, logic, describe(first, list(own)), len(want1)), payload)
+                except Exception as e:
+                    report('exception/' + type(e).__name__, 'select on a private dataset (copies of the first %d points of dataset %s), criteria '
+                           '%s (%s) raised %s' % (k, payload['dataset'], strs, logic, type(e).__name__), payload)
+                first = None
+                q = own[rng.randrange(k)]
+                old = q[a0]
+                thr = eval(crit[0][2])
+                q[a0] = thr + (abs(thr) + 1.0) * (1 if old <= thr else -1)        # to the other side of the threshold
+                payload = dict(payload, changed_attribute=a0, old=old, new=q[a0])
+                ref = list(own)
+                want = lfilter(ref, crit, logic)
+                rep.hist('temporary.mutated', 'selection changes' if not same(want, want1) else 'selection unchanged')
+                real = lambda: g.select(own, strs, logic)
+            # ---- the real code ----
+            try:
+                got = real()
+            except Exception as e:
+                report('exception/' + type(e).__name__, '%s on a short-lived dataset made from dataset %s (k=%d, criteria %s, %s, slice %s) raised %s: %s' % (
+                    kind, payload['dataset'], k, strs, logic, payload['slice'], type(e).__name__, str(e)[:200]), payload)
+                got = None
+            if got is not None:
+                ok_type = type(got).__name__ == 'DataSet'
+                if not same(got, want) or not ok_type:
+                    report(kind.split('-')[0], '%s on a short-lived dataset (k=%d, criteria %s, %s, slice %s; datasets %s/%s, number %d of '
+                           'the round): got %s%s, the same operation on plain lists gives %d points' % (
+                               kind, k, strs, logic, payload['slice'], payload['dataset'], payload['second'], j,
+                               describe(got, ref), '' if ok_type else ' of type ' + type(got).__name__, len(want)), payload)
+                elif want_attrs is not None and attrs_of(got) != want_attrs:
+                    report('attrs', '%s on a short-lived dataset made from dataset %s: the result does not carry the attributes of '
+                           'the source' % (kind, payload['dataset']), payload)
+            got = real = None
+            if ([id(p) for p in ds], attrs_of(ds)) != before:
+                report('source-mutated', '%s on a temporary made from dataset %s changed the dataset' % (kind, payload['dataset']), payload)
+    rep.notes.append('stream "temporary" is an oracle stream (plain list operations on the source points; no model): the property on '
+                     'datasets that are created inline and dropped, and on a private dataset whose point attributes change between calls')
+
+
 def run(rep):
     import gepard as g
     from gepard import data as gdata
@@ -235,6 +397,13 @@ def run(rep):
         bx, by = snapshot(x), snapshot(y)
         line = 'c17.add %s | %s' % (' '.join(bx[2]), ' '.join(by[2]))
         spec_pts = bx[0] + by[0]
+        # Python spec of the attributes of x + y: the descriptive attributes of x on which y agrees (all of them when
+        # both operands carry the same ones), in the order of x
+        try:
+            yd = dict(y.__dict__)
+            spec_add = ' '.join(attrs_tokens({k: v for k, v in x.__dict__.items() if k in yd and bool(yd[k] == v)}))
+        except Exception:
+            spec_add = None          # attribute values that cannot be compared: no spec, the model alone is no verdict
         try:
             res = x + y
             impl_pts = [id(p) for p in res]
@@ -247,7 +416,7 @@ def run(rep):
         ax, ay = snapshot(x), snapshot(y)
         cases.append(('add', dict(a=getattr(x, 'id', None), b=getattr(y, 'id', None),
                                   na=len(x), nb=len(y), same_attrs=(bx[2] == by[2])),
-                      line, impl, None,
+                      line, impl, spec_add,
                       dict(pts_ok=pts_ok, source_ok=(bx == ax and by == ay))))
         rep.hist('add.kind', 'same-attrs' if bx[2] == by[2] else 'different-attrs')
 
@@ -266,8 +435,16 @@ def run(rep):
         tok_o = ['%s=%s' % (safe_key(k), digest(v)) for k, v in items]
         tok_a = ['%s=%s' % (safe_key(k), digest(v)) for k, v in assign]
         line = 'c17.copyset %s | %s' % (' '.join(tok_o), ' '.join(tok_a))
+        # Python spec: the original keeps its items; the copy is a dictionary with the same items to which the
+        # assignments were applied (an existing key keeps its place, a new key goes to the end)
+        spec_d = dict(items)
+        for k, v in assign:
+            spec_d[k] = v
+        spec_copy = (' '.join(tok_o) or '-') + ' | ' + (' '.join('%s=%s' % (safe_key(k), digest(v)) for k, v in spec_d.items()) or '-')
         try:
             c = pt.copy()
+            if c is pt:
+                raise AssertionError('copy returned the point itself')
             for k, v in assign:
                 if rng.random() < 0.5:
                     setattr(c, k, v)
@@ -278,6 +455,8 @@ def run(rep):
             impl = so + ' | ' + sc
             if type(c).__name__ != 'DataPoint' or c.__dict__ is not c:
                 impl += ' BADCOPY'
+        except AssertionError:
+            impl = 'SAMEOBJECT'
         except Exception as e:
             impl = 'EXC:' + type(e).__name__
         finally:
@@ -288,15 +467,46 @@ def run(rep):
                 if k.startswith('verif_new_'):
                     del pt[k]
         cases.append(('copy', dict(dataset=getattr(ds, 'id', None), assign=[list(map(str, a)) for a in assign]),
-                      line, impl, None, {}))
+                      line, impl, spec_copy, {}))
+
+    # ---------------- single index (a degenerate slice): ds[i] is the i-th point of the list ----------------
+    for i in range(nslice // 4):
+        ds = rng.choice(dsets)
+        n = len(ds)
+        if not n:
+            continue
+        k = rng.randrange(-n, n)
+        ref = list(ds)
+        rep.case('index', (getattr(ds, 'id', None), k))
+        try:
+            got = ds[k]
+            bad = None if got is ref[k] else 'returned %s' % ('another point of the dataset' if any(got is q for q in ref) else 'an object that is not in the dataset')
+        except Exception as e:
+            bad = 'raised ' + type(e).__name__
+        if bad is None and [id(q) for q in ds] != [id(q) for q in ref]:
+            bad = 'changed the dataset'
+        if bad:
+            rep.violation('index/%s' % bad.split()[0], 'dataset %s (%d points): ds[%d] %s, a list gives its point number %d' % (
+                getattr(ds, 'id', None), n, k, bad, k % n), dict(op='index', input=dict(dataset=getattr(ds, 'id', None), npts=n, index=k)))
+
+    # ---------------- the same operations on short-lived datasets (oracle: plain list operations) ----------------
+    temporaries_stream(rep, rng, g, dsets, 40 if tier == 'quick' else 600)
 
     # ---------------- run the model and compare ----------------
-    model = common.run_driver([c[2] for c in cases])
+    try:
+        model = common.run_driver([c[2] for c in cases])
+    except common.ModelUnavailable as ex:
+        # the model cannot be run: every case is still compared with its Python spec (list semantics) below
+        model = [None] * len(cases)
+        rep.violation('model-unavailable', 'the Lean model of the dataset operations could not be run (%s): select/slice/add/copy were '
+                      'compared with the Python list-semantics spec only' % str(ex)[:300], dict(reason=str(ex)[:300]), found_input=False)
     for (kind, payload, line, impl, spec, side), mod in zip(cases, model):
-        rep.case(kind, line, nontrivial=True, sample=dict(payload, impl=impl[:80], model=mod[:80]))
+        rep.case(kind, line, nontrivial=True, sample=dict(payload, impl=impl[:80], model=(mod or 'unavailable')[:80]))
         problems = []
-        if impl != mod:
+        if mod is not None and impl != mod:
             problems.append('result')
+        if spec is not None and impl != spec and 'result' not in problems:
+            problems.append('result')        # model and code agree (or no model) but the list-semantics spec says otherwise
         if side.get('attrs_ok') is False:
             problems.append('attrs')
         if side.get('pts_ok') is False:
@@ -305,8 +515,10 @@ def run(rep):
             problems.append('source-mutated')
         if not problems:
             continue
-        # which side is wrong?  spec = python list semantics computed by the harness
-        model_wrong = spec is not None and mod != spec
+        # which side is wrong?  spec = python list semantics computed by the harness.  A concrete failing input is claimed
+        # only when the SPEC (not merely the model) says the code is wrong, or a side condition evaluated on the real
+        # objects (points of x + y, attributes kept, source untouched) fails; model != code alone is no failing input
+        code_wrong = (spec is not None and impl != spec) or any(side.get(k_) is False for k_ in ('attrs_ok', 'pts_ok', 'source_ok'))
         if impl.startswith('EXC:'):
             cls = impl
         elif kind == 'select' and 'result' in problems:
@@ -318,11 +530,11 @@ def run(rep):
         emptyish = (spec == '-') if spec is not None else False
         key = '%s/%s/%s%s' % (kind, payload.get('logic', ''), cls, '/empty' if emptyish else '')
         what = '%s on real gepard: %s; got %s, list semantics requires %s' % (
-            kind, payload, impl[:200], (spec if spec is not None else mod)[:200])
+            kind, payload, impl[:200], (spec if spec is not None else (mod or '?'))[:200])
         rep.violation(key, what, dict(op=kind, input=payload, protocol_line=line, impl=impl,
                                       model=mod, spec=spec, problems=problems,
                                       reproduce='./check C17 --replay <this file>'),
-                      found_input=not model_wrong)
+                      found_input=code_wrong)
     if lean_broken and not rep.violations:
         rep.violation('lean', 'Lean side of C17 no longer checks: ' + lean_broken,
                       dict(theorem_or_stream=lean_broken), found_input=False)
